@@ -145,7 +145,7 @@ def strip_comments(src):
 
 
 # tie T: which GenEq files (regenerated definitions = model) each property relies on
-_DRV = ["GenEq/GenEqSrcDriver", "GenEq/GenEqStrat", "GenEq/GenEqSrcRewriters"]
+_DRV = ["GenEq/GenEqSrcDriver", "GenEq/GenEqStrat", "GenEq/GenEqSrcRewriters", "GenEq/GenEqSplit", "GenEq/GenEqSrcSplit"]
 _MIN = ["GenEq/GenEqTestcase", "GenEq/GenEqUtil", "GenEq/GenEqStrat", "GenEq/GenEqSplit",
         "GenEq/GenEqSrcMinimize"] + _DRV
 _SPL = ["GenEq/GenEqSplit", "GenEq/GenEqSrcSplit"]
